@@ -3,8 +3,9 @@
 All integers decimal; times are seconds on the engine's clock (block time − history start + 1), durations
 seconds, Decs raw 18-decimal integers; owners / denoms / validators are small indexes chosen by the engine.
 
-  reset <now> <unbondingTime> <riskFactor> <supply> <offset> <lastGauge> <lastLockId> v=<i,…> a=<denom:mult,…> d=<denom,…>
-        new history; `a` = superfluid assets with their current multiplier, `d` = every denom index in use
+  reset <now> <unbondingTime> <riskFactor> <supply> <offset> <lastGauge> <lastLockId> v=<i,…> a=<denom:mult,…> d=<denom,…> k=<tokens:shares,…>
+        new history; `a` = superfluid assets with their current multiplier, `d` = every denom index in use,
+        `k` = tokens and delegator shares (raw Dec) of validator 0, 1, …
   lock <owner> <denom> <amount> <duration> <single 0|1>     LockupKeeper.CreateLock            -> ok <id>
   addtolock <sender> <id> <amount>                           LockupKeeper.AddTokensToLockByID
   delegate <sender> <id> <val>                               MsgSuperfluidDelegate
@@ -16,13 +17,17 @@ seconds, Decs raw 18-decimal integers; owners / denoms / validators are small in
   endblock                                                   DeleteAllMaturedSyntheticLocks; WithdrawMaturedLocks
   advance <dt>                                               block time += dt
   exportimport                                               ExportGenesis; superfluid store wiped; InitGenesis
-  epoch <denom>:<osmo backing>:<raw Dec of share supply | full-range liquidity>:<l|c> …   SuperfluidKeeper.AfterEpochStartBeginBlock
+  epoch <denom>:<osmo backing>:<raw Dec of share supply | full-range liquidity>:<l|c> … [o=<d.v,…>]   SuperfluidKeeper.AfterEpochStartBeginBlock
+                                                             (o = the order in which GetAllIntermediaryAccounts iterates)
                                                              (l = classic pool shares, c = concentrated full-range shares)
+  slash <val> <TokensFromConsensusPower(power)> <fraction raw Dec> x=<id,…>   StakingKeeper.Slash at the current height -> ok <burnt>
+                                                             (x = locks of concentrated shares without a position mapped to them)
 
-result line:  <ok [id] | err:<class> | panic> st=[d.v=stake,…] cn=[id>d.v,…] sy=[id:b|u:d.v:end:dur,…]
+result line:  <ok [id] | err:<class> | panic> vl=[val:tokens:shares,…] st=[d.v=stake/shares,…] cn=[id>d.v,…] sy=[id:b|u:d.v:end:dur,…]
+              (stake = TokensFromShares(delegation shares).TruncateInt(), shares raw Dec)
               lk=[id:owner:denom:amount:single:dur:end,…] ac=[d.v:gauge,…] m=[denom:mult,…] sup=<supply> off=<offset> rep=<supply with offset>
 (every state-changing call runs in a cache context that is written back only on success) -/
-import OsmoVerif.Model.Superfluid
+import OsmoVerif.Model.SuperfluidStaking
 import OsmoVerif.Model.SuperfluidGenesis
 namespace OsmoVerif.Superfluid
 
@@ -30,9 +35,12 @@ structure DrvState where
   s : State := { now := 0, unbondingTime := 0, riskFactor := 0, validators := [], assets := [], mult := fun _ => 0,
                  locks := fun _ => none, lastLockId := 0, synths := fun _ => [], conns := fun _ => none, accs := [],
                  lastGauge := 0, accum := fun _ => [], deleg := fun _ => none, supply := 0, offset := 0 }
+  k : Stk := { val := fun _ => { tokens := 0, shares := 0 }, dsh := fun _ => none }
   denoms : List Nat := []
 
 def initSuperfluid : DrvState := {}
+
+def DrvState.ss (d : DrvState) : SState := { b := d.s, k := d.k }
 
 def keyStr (k : AccKey) : String := s!"{k.1}.{k.2}"
 def optTime : Option Int → String
@@ -45,9 +53,14 @@ def showState (d : DrvState) : String :=
   let s := d.s
   let accs := s.accs.mergeSort keyLe
   let ids := (List.range s.lastLockId).map (· + 1)
-  let st := accs.filterMap fun (k, _) => match s.deleg k with
-    | some x => some s!"{keyStr k}={x}"
+  let st := accs.filterMap fun (k, _) => match d.k.dsh k with
+    | some x =>
+      let tk := match (d.k.val k.2).stakeTrunc x with
+        | some t => toString t
+        | none => "?"
+      some s!"{keyStr k}={tk}/{x}"
     | none => none
+  let vl := s.validators.map fun i => s!"{i}:{(d.k.val i).tokens}:{(d.k.val i).shares}"
   let cn := ids.filterMap fun i => (s.conns i).map fun k => s!"{i}>{keyStr k}"
   let sy := (ids.map fun i => (s.synths i).map fun x =>
     let kd := match x.kind with | .bonding => "b" | .unbonding => "u"
@@ -58,14 +71,28 @@ def showState (d : DrvState) : String :=
   let m := d.denoms.map fun dn => s!"{dn}:{s.mult dn}"
   let rep := if s.supply + s.offset < 0 then 0 else s.supply + s.offset
   let j := fun (l : List String) => "[" ++ ",".intercalate l ++ "]"
-  s!"st={j st} cn={j cn} sy={j sy} lk={j lk} ac={j ac} m={j m} sup={s.supply} off={s.offset} rep={rep}"
+  s!"vl={j vl} st={j st} cn={j cn} sy={j sy} lk={j lk} ac={j ac} m={j m} sup={s.supply} off={s.offset} rep={rep}"
 
-def finishOp (d : DrvState) (op : Op) : DrvState × String :=
-  match applyOpId d.s op with
-  | .ok (s', some id) => let d' := { d with s := s' }; (d', s!"ok {id} " ++ showState d')
-  | .ok (s', none) => let d' := { d with s := s' }; (d', "ok " ++ showState d')
+def finishOpS (d : DrvState) (op : OpS) : DrvState × String :=
+  match applyOpIdS d.ss op with
+  | .ok (s', some id) => let d' := { d with s := s'.b, k := s'.k }; (d', s!"ok {id} " ++ showState d')
+  | .ok (s', none) => let d' := { d with s := s'.b, k := s'.k }; (d', "ok " ++ showState d')
   | .error .panic => (d, "panic " ++ showState d)
   | .error e => (d, s!"err:{e.toString} " ++ showState d)
+
+def finishOp (d : DrvState) (op : Op) : DrvState × String := finishOpS d (.base op)
+
+def parseVals (s : String) : Option (List Val) :=
+  if s = "" then some [] else (s.splitOn ",").mapM fun x =>
+    match x.splitOn ":" with
+    | [t, sh] => do some { tokens := (← t.toInt?), shares := (← sh.toInt?) }
+    | _ => none
+
+def parseKeys (s : String) : Option (List AccKey) :=
+  if s = "" then some [] else (s.splitOn ",").mapM fun x =>
+    match x.splitOn "." with
+    | [a, b] => do some ((← a.toNat?), (← b.toNat?))
+    | _ => none
 
 def parseNatList (s : String) : Option (List Nat) :=
   if s = "" then some [] else (s.splitOn ",").mapM String.toNat?
@@ -95,17 +122,20 @@ def stripPrefix (p s : String) : Option String :=
 
 def stepSuperfluid (d : DrvState) (op : String) (args : List String) : DrvState × String :=
   match op, args with
-  | "reset", [now, ub, rf, sup, off, lg, ll, v, a, dn] =>
+  | "reset", [now, ub, rf, sup, off, lg, ll, v, a, dn, kk] =>
     match [now, ub, rf, sup, off].mapM String.toInt?, lg.toNat?, ll.toNat?,
-          (stripPrefix "v=" v).bind parseNatList, (stripPrefix "a=" a).bind parseAssets, (stripPrefix "d=" dn).bind parseNatList with
-    | some [now, ub, rf, sup, off], some lg, some ll, some vs, some as, some dns =>
+          (stripPrefix "v=" v).bind parseNatList, (stripPrefix "a=" a).bind parseAssets, (stripPrefix "d=" dn).bind parseNatList,
+          (stripPrefix "k=" kk).bind parseVals with
+    | some [now, ub, rf, sup, off], some lg, some ll, some vs, some as, some dns, some vals =>
       let s0 : State := { initSuperfluid.s with
         now := now, unbondingTime := ub, riskFactor := rf, supply := sup, offset := off,
         lastGauge := lg, lastLockId := ll, validators := vs, assets := as.map (·.1),
         mult := fun x => match as.find? (·.1 = x) with | some p => p.2 | none => 0 }
-      let d' : DrvState := { s := s0, denoms := dns }
+      let k0 : Stk := { val := fun i => match vals[i]? with | some v => v | none => { tokens := 0, shares := 0 },
+                        dsh := fun _ => none }
+      let d' : DrvState := { s := s0, k := k0, denoms := dns }
       (d', "ok " ++ showState d')
-    | _, _, _, _, _, _ => (d, "bad-op")
+    | _, _, _, _, _, _, _ => (d, "bad-op")
   | "lock", [o, dn, a, du, sg] =>
     match o.toNat?, dn.toNat?, a.toInt?, du.toInt? with
     | some o, some dn, some a, some du => finishOp d (.lock o dn a du (sg = "1"))
@@ -152,10 +182,24 @@ def stepSuperfluid (d : DrvState) (op : String) (args : List String) : DrvState 
     match dt.toInt? with
     | some dt => finishOp d (.advance dt)
     | none => (d, "bad-op")
-  | "epoch", ups =>
-    match parseUps ups with
-    | some ups => finishOp d (.epoch ups)
-    | none => (d, "bad-op")
+  | "slash", [v, p, f, x] =>
+    match v.toNat?, p.toInt?, f.toInt?, (stripPrefix "x=" x).bind parseNatList with
+    | some v, some p, some f, some x => finishOpS d (.slash v p f x)
+    | _, _, _, _ => (d, "bad-op")
+  | "epoch", args =>
+    -- the last argument `o=<d.v,…>` is the order in which the store iterates the intermediary accounts
+    match args.getLast? with
+    | some l =>
+      match stripPrefix "o=" l with
+      | some o =>
+        match parseUps args.dropLast, parseKeys o with
+        | some ups, some order => finishOpS d (.epochO ups order)
+        | _, _ => (d, "bad-op")
+      | none =>
+        match parseUps args with
+        | some ups => finishOp d (.epoch ups)
+        | none => (d, "bad-op")
+    | none => finishOp d (.epoch [])
   | _, _ => (d, "bad-op")
 
 end OsmoVerif.Superfluid
